@@ -123,6 +123,40 @@ def reentryFree : Nat → String → Bool
             (skelTable.lookup ("set", n)).map modeOfSkel == some AMode.none && reentryFree fuel n
           else true)
 
+/-! ## the leaf mutexes (`OrderedMap.mutex`, `ShrinkingMap.mutex`): nothing that locks is called while they are held -/
+
+/-- The calls a skeleton makes on its own receiver **while it holds `recv.field`** (taken by `lock`/`rlock`, given back by
+`unlock`/`runlock`; a deferred release keeps it until the end).  Callbacks are part of the skeleton. -/
+def heldSelfCalls (recv field : String) : Bool → List String → List String
+  | _, [] => []
+  | held, t :: r =>
+    let x := recv ++ "." ++ field
+    if t == "lock " ++ x || t == "rlock " ++ x then heldSelfCalls recv field true r
+    else if t == "unlock " ++ x || t == "runlock " ++ x then heldSelfCalls recv field false r
+    else
+      match (if held then selfCallOf recv t else none) with
+      | some path => path :: heldSelfCalls recv field held r
+      | none => heldSelfCalls recv field held r
+
+/-- the token names `recv.field` in a lock call (plain or deferred) -/
+def locksField (recv field tok : String) : Bool := (" " ++ recv ++ "." ++ field).toList.isSuffixOf tok.toList
+
+/-- the skeletons of the `ShrinkingMap` methods the ordered map and `SetArithmetic` use, and of its unexported helpers -/
+def shrinkSkelTable : List (String × List String) := [
+  ("Set", skel_ShrinkingMap_Set), ("Get", skel_ShrinkingMap_Get), ("Has", skel_ShrinkingMap_Has),
+  ("Compute", skel_ShrinkingMap_Compute), ("Delete", skel_ShrinkingMap_Delete), ("Clear", skel_ShrinkingMap_Clear),
+  ("delete", skel_ShrinkingMap_delete), ("shouldShrink", skel_ShrinkingMap_shouldShrink), ("shrink", skel_ShrinkingMap_shrink)]
+
+/-- a `ShrinkingMap` helper that may be called under `s.mutex`: its skeleton never touches the mutex, and neither does
+anything it calls on the receiver (`call s.X`), transitively -/
+def shrinkHelperLockFree : Nat → String → Bool
+  | 0, _ => false
+  | fuel + 1, name =>
+    match shrinkSkelTable.lookup name with
+    | none => false
+    | some sk =>
+      !sk.any (locksField "s" "mutex") && (selfCalls "s" sk).all (fun callee => shrinkHelperLockFree fuel callee)
+
 /-! ## which lock scripts model each method
 
 `Call` is the alphabet of `methodScript` (`Hive/Model/OMapConc.lean`); a goroutine is any list of calls
